@@ -133,9 +133,13 @@ def run_all(tier, seed):
                 M, extra, mshape = make_module(tmp, r)
             ctx = xo.ContextCpu()
             bufs = [ctx.new_buffer(r.choice([64, 512, 4096])) for _ in range(3)]
+            holes = []
             for b in bufs:
                 if r.random() < 0.5:
                     b.allocate(r.randrange(1, 30))
+                if r.random() < 0.5:
+                    n_ = r.choice([8, 24, 40])
+                    holes.append((b, int(b.allocate(n_)), n_))     # freed after the objects exist: a hole below live data
             objs = []
             c0 = {"component": "pickle", "extra_dyn": extra, "mshape": mshape, "case": case}
             try:
@@ -163,6 +167,14 @@ def run_all(tier, seed):
             except Exception as ex:
                 fail("construction-raises", f"{type(ex).__name__}: {str(ex)[:200]}", c0)
                 continue
+            # allocator states a pickled buffer must carry over: holes between live objects, and no free space at the end
+            for b, o_, n_ in holes:
+                b.free(o_, n_)
+                tags["buffer.hole"] += 1
+            for b in bufs:
+                if r.random() < 0.4 and b.chunks and b.chunks[-1].end == b.capacity:
+                    b.allocate(b.chunks[-1].end - b.chunks[-1].start)
+                    tags["buffer.exactly-full-tail"] += 1
             sub = r.sample(objs, r.randrange(1, len(objs) + 1))
             before = [value(o) for o in sub]
             kinds = [type(o).__name__ for o in sub]
